@@ -58,6 +58,7 @@ func VerifC11_LimitedRead() {
 type verifTransport struct {
 	sawURLHost, sawHost, sawMethod string
 	calls                          int
+	failed                         bool
 	status                         int
 	body                           *verifBody
 }
@@ -66,6 +67,7 @@ func (t *verifTransport) RoundTrip(req *http.Request) (*http.Response, error) {
 	t.calls++
 	t.sawURLHost, t.sawHost, t.sawMethod = req.URL.Host, req.Host, req.Method
 	if verifapi.Bool("transport.fails") {
+		t.failed = true
 		return nil, errors.New("transport failure (stub)")
 	}
 	return &http.Response{StatusCode: t.status, Status: "status", Body: t.body}, nil
@@ -96,7 +98,7 @@ func verifEncodePath(data []byte) string { return "0pad/data" }
 
 // the armor decoder, as far as Exchange can tell: a reader that consumes the (limited) body
 // and yields the decoded poll response, or fails
-var verifDecFailed bool
+var verifDecFailed, verifBadVersion, verifHasLocation bool
 
 type verifDec struct {
 	src  io.Reader
@@ -125,12 +127,14 @@ func (d *verifDec) Read(p []byte) (int, error) {
 }
 func verifNewArmorDecoder(r io.Reader) (io.Reader, error) {
 	if verifapi.Bool("armor.badVersion") {
+		verifBadVersion = true
 		return nil, errors.New("unknown armor version (stub)")
 	}
 	return &verifDec{src: r, fail: verifapi.Bool("armor.fails")}, nil
 }
 func verifLocation(r *http.Response) (*url.URL, error) {
 	if verifapi.Bool("response.hasLocation") {
+		verifHasLocation = true
 		return &url.URL{}, nil
 	}
 	return nil, http.ErrNoLocation
@@ -200,6 +204,10 @@ func VerifC11_AMPExchange() {
 	verifFrontingOracle(t, front, orig)
 	if t.calls == 1 {
 		verifapi.Assert(t.sawMethod == "GET", "the AMP poll is a GET")
+	}
+	if t.calls == 1 && !t.failed && t.status == 200 && !verifHasLocation && !verifBadVersion && !verifDecFailed && size <= 100000 {
+		verifapi.Cover("well-formed response within the limit")
+		verifapi.Assert(err == nil, "a well-formed response of up to exactly 100000 bytes is accepted")
 	}
 	if verifDecFailed {
 		verifapi.Cover("armor decoding failed while streaming")
